@@ -425,8 +425,10 @@ def variant(rng, k):
     recs = []
     nl = b"\r\n" if rng.random() < 0.25 else b"\n"  # (a cache must bring back the line width of CRLF files too)
     names = [b"v%d_%d" % (k, i) for i in range(rng.randint(1, 4))]
+    if rng.random() < 0.04:
+        names = [b"v%d_%d" % (k, i) for i in range(rng.randint(1001, 1300))]  # more records than any block size
     if rng.random() < 0.5:
-        names = [rng.choice([b"z", b"m10_", b"m2_", b"a", b"Z"]) + n for n in names]  # not in sorted order
+        names = [rng.choice([b"z", b"m10_", b"m2_", b"a", b"Z", b'"q', b'"x"']) + n for n in names]  # not in sorted order; quotes
     for nm in names:
         seq = bytes(rng.choice(b"ACGTN") for _ in range(rng.randint(1, 40)))
         w = rng.choice([5, 10, 60])
